@@ -7,7 +7,7 @@ From Coq Require Import List ZArith Bool.
 Import ListNotations.
 From V Require Import Valid.Hier Valid.Walk Valid.FlatRegion Model.Graph Model.Edits Model.Edits2 Model.Refine Model.IbPath
      Model.Extract Model.CbHier Model.LoopHier Model.InsHier Model.InsHierApplic Model.InsHierRun Model.LoopHierRun
-     Model.HierEquiv Model.UniHierRun Model.HelperCol.
+     Model.HierEquiv Model.UniHierRun Model.HelperCol Model.RlInsert.
 Local Open Scope Z_scope.
 
 Definition ins1_col_of (h ha : hier) (lvl new e0 : name) (preds : list name) (cls : Z) : Z :=
@@ -49,7 +49,9 @@ Definition ins_col2 (rows : list (list Z)) : Z :=
     match take_list r with
     | Some (preds, r1) =>
       match take_list r1 with
-      | Some ([e0], []) => ins1_col_of h ha lvl new e0 preds cls
+      | Some ([e0], []) =>
+        let c := ins1_col_of h ha lvl new e0 preds cls in
+        if Z.eqb c 2 then ins_rl_col_of h ha new e0 preds cls else c
       | _ => ins_col rows
       end
     | None => ins_col rows
